@@ -298,7 +298,8 @@ fn dtree_case(ctx: &mut Ctx, cl: &Clauses, perm: &[usize], oname: &str) {
         }
         Some(vt) => {
             ctx.count("vtrees_from_dtree", 1);
-            let lv: Vec<usize> = VTree::flatten_vtree(&vt).iter().map(|x| x.value_usize()).collect();
+            // own traversal of the public tree type (not the library's flatten helper)
+            let lv: Vec<usize> = crate::sddhist::vtree_vars(&vt);
             let ls: BTreeSet<usize> = lv.iter().cloned().collect();
             if ls.len() != lv.len() || ls != allv {
                 ctx.violation("vtree.from_dtree.leaves", "dtree-derived vtree does not contain every CNF variable exactly once",
